@@ -26,13 +26,12 @@ THOROUGH = [
     ("S2", DROP_ASC, 2, "FULLND"),
     ("S2", HOLD_DESC, 2, "FULLND"),
     ("S4", DROP_DESC, 2, "FULLND"),
-    ("S1", DROP_ASC, 3, "FULLND"),
     ("S2r", HOLD_ASC, 2, "FULLND"),
-    ("S0", DROP_ASC, 4, "FULLND"),
     ("S4r", HOLD_DESC, 2, "FULLND"),
+    ("S0", DROP_ASC, 4, "FULLND"),
     ("S1", HOLD_DESC, 3, "STRUCT"),
     ("S5", DROP_ASC, 2, "EDIT"),
-    ("S5", HOLD_DESC, 2, "FULLND"),
+    ("S5", HOLD_DESC, 1, "FULLND"),
     ("S1", DROP_ASC, 4, "IDGC"),
     ("S2", DROP_DESC, 3, "IDGC"),
 ]
